@@ -859,3 +859,158 @@ def check_c10(rep):
 
 
 REGISTRY.update({"C10": (check_c10, "model_checking")})
+
+
+# --------------------------------------------------------------------------------------------------
+# C12 CKKS encoding
+# --------------------------------------------------------------------------------------------------
+def _f64(bits):
+    import struct
+    return struct.unpack('<d', struct.pack('<Q', int(bits)))[0]
+
+
+def _dyadic(x):
+    """double -> (neg, mant, exp) with x = (-1)^neg * mant * 2^exp exactly"""
+    import math
+    if x == 0:
+        return {"neg": False, "mant": [], "exp": 0, "frac": (0, 0)}
+    m, e = math.frexp(abs(x))
+    mant = int(m * (1 << 53))
+    exp = e - 53
+    while mant % 2 == 0:
+        mant //= 2
+        exp += 1
+    return {"neg": x < 0, "mant": arith.limbs(mant), "exp": exp, "frac": (mant, exp)}
+
+
+def _scaled_round(v, s):
+    """exact round-half-away of v*s for doubles v, s -> (neg, magnitude, shift hint)"""
+    mv, ev = v["frac"]
+    ms, es = s["frac"]
+    P = mv * ms
+    e = ev + es
+    if e >= 0:
+        return P << e, [[], []]
+    D = 1 << (-e)
+    quo, rem = P // D, P % D
+    val = quo + (1 if 2 * rem >= D else 0)
+    return val, [arith.limbs(quo), arith.limbs(rem)]
+
+
+def ckks_event(raw):
+    import math
+    q = [int(m) for m in raw["q"]]
+    Q = 1
+    for m in q:
+        Q *= m
+    n = raw["n"]
+    scale = _f64(raw["scale_bits"])
+    inputs = [_f64(b) for b in raw["inputs"]]
+    ints = raw["ints"]
+    entry, structure = raw["entry"], raw["structure"]
+    ev = {"ev": "ckks", "entry": entry, "structure": structure, "n": n, "q": [arith.limbs(m) for m in q], "Q": arith.limbs(Q), "refused": raw["refused"],
+          "fft": entry in ("vector", "c64_single"), "coef": [], "dec_dev": 0, "dec_tol": 0, "scale_kept": True, "level_ok": True,
+          "ref": [], "must_refuse": False, "may_refuse": False}
+    if entry == "i64_single":
+        scale = 1.0
+        vals = [float(ints[0])]
+        vd = [{"neg": ints[0] < 0, "mant": arith.limbs(abs(ints[0])), "exp": 0, "frac": (abs(ints[0]), 0)}]
+    else:
+        vals = inputs
+        vd = [_dyadic(v) for v in inputs]
+    bad_scale = not (scale > 0 and math.isfinite(scale))
+    sd = _dyadic(scale if not bad_scale else 1.0)
+    ev["scale"] = {k: sd[k] for k in ("mant", "exp")}
+    ev["inputs"] = [{k: d[k] for k in ("neg", "mant", "exp")} for d in vd]
+    # magnitude of the largest scaled coefficient (exact for the coefficient-wise entry points, a safe over-estimate otherwise)
+    mags = []
+    hints = []
+    for d in vd:
+        val, sh = _scaled_round(d, sd) if not bad_scale else (0, [[], []])
+        mags.append(val)
+        hints.append(sh)
+    if structure == "random":
+        biggest = int(abs(vals[0]) * 2 * (scale if not bad_scale else 0)) + 1      # |coefficient| <= max|slot| * sqrt(2)... generous
+    elif structure in ("csingle", "n2"):
+        biggest = max(mags) * 2 + 1
+    else:
+        biggest = max(mags) if mags else 0
+    from fractions import Fraction
+    if bad_scale or Fraction(scale) >= Q or biggest >= Q and structure not in ("random", "csingle"):
+        ev["must_refuse"] = True
+    elif Fraction(scale) * 16 >= Q or biggest * 32 >= Q:
+        ev["may_refuse"] = True
+    if raw["refused"] or ev["must_refuse"]:
+        return ev
+    # compose the residues of every coefficient into one centred integer (hint)
+    xs = []
+    for r in raw["res"]:
+        x = 0
+        for ri, m in zip(r, q):
+            pm = Q // m
+            x += int(ri) * pow(pm % m, -1, m) % m * pm
+        x %= Q
+        if x > Q // 2:
+            x -= Q
+        xs.append(x)
+    ref = max(abs(x) for x in xs) if xs else 0
+    ev["ref"] = arith.limbs(ref)
+    def coef(j, kind, inp=0):
+        x = xs[j]
+        r = [int(v) for v in raw["res"][j]]
+        neg, mag = x < 0, abs(x)
+        h = [arith.limbs((mag + ri) // m) if (neg and mag) else arith.limbs(mag // m) for ri, m in zip(r, q)]
+        return {"neg": neg, "mag": arith.limbs(mag), "r": [arith.limbs(v) for v in r], "h": h, "kind": kind, "inp": inp, "sh": hints[inp - 1] if inp else [[], []]}
+    for j in range(n):
+        if entry in ("i64_single", "f64_single"):
+            ev["coef"].append(coef(j, "scaled", 1) if j == 0 else coef(j, "zero"))
+        elif entry == "poly":
+            ev["coef"].append(coef(j, "scaled", j + 1) if j < len(inputs) else coef(j, "zero"))
+        elif structure == "const":
+            ev["coef"].append(coef(j, "scaled", 1) if j == 0 else coef(j, "small"))
+        elif structure == "alt":
+            ev["coef"].append(coef(j, "scaled", 1) if j == n // 2 else coef(j, "small"))
+        elif structure == "n2":
+            ev["coef"].append(coef(j, "scaled", j + 1))
+        else:
+            ev["coef"].append(coef(j, "any"))
+    ev["dec_dev"] = min(int(raw.get("dec_dev", 1 << 60)), 1 << 30)
+    vmax = max([abs(v) for v in vals] + [1.0]) * (2 if structure in ("random", "csingle", "n2") else 1)
+    tol = 1048576.0 * (vmax * 2.0 ** -36 + 4.0 * n / scale) + 2
+    ev["dec_tol"] = min(int(tol), 1 << 30)
+    ev["scale_kept"] = bool(raw.get("scale_kept"))
+    ev["level_ok"] = bool(raw.get("level_ok")) and bool(raw.get("valid"))
+    return ev
+
+
+def check_c12(rep):
+    wd = workdir("C12")
+    raw = [json.loads(l) for l in hcv(["c12", rep.tier, str(rep.seed)], timeout=1500).splitlines()]
+    lines = [json.dumps(ckks_event(r)) for r in raw]
+    bad, st = arith.validate(lines, wd, module="Trace_Ckks", timeout=3000, chunks=8)
+    rep.cov["states"] = st["distinct"]
+    rep.cov["transitions"] = st["generated"]
+    rep.cov["traces_validated_against_impl"] = len(lines)
+    rep.cov["evaluations"] = len(lines)
+    rep.cov["distinct_nontrivial"] = len({json.dumps([r["entry"], r["structure"], r["n"], r["q"], r["scale_bits"], r["inputs"], r["ints"]]) for r in raw})
+    rep.cov["refused"] = sum(1 for r in raw if r["refused"])
+    rep.cov["per_entry"] = {k: sum(1 for r in raw if r["entry"] == k) for k in sorted({r["entry"] for r in raw})}
+    rep.cov["rule"] = ("events = one per (parameter set, level, entry point, input structure, scale): five entry points x scales 2^0..2^(log q + 3) incl. 0 and negative, crossing the 64- and 128-bit paths, "
+                       "x magnitudes 0..1e18 with both signs x chains of 3..5 (quick) / 3..19 (thorough) primes at every level; TLC checks that all RNS components hold the residues of one small integer "
+                       "per coefficient, that it is the rounded scaled input for the coefficient-wise entry points and the monomial-preimage vectors (N=2: exact), zero elsewhere, decode deviation within "
+                       "the allowance, scale/level recorded, and refusal of oversized magnitudes and invalid scales")
+    for b in bad:
+        r = raw[b[0] - 1]
+        import math
+        sc = _f64(r["scale_bits"])
+        sig = {"entry": r["entry"], "structure": r["structure"], "refused": r["refused"],
+               "scale_log2": int(math.log2(sc)) if sc > 0 and math.isfinite(sc) else None,
+               "negative": bool((r["ints"] and r["ints"][0] < 0) or (r["inputs"] and _f64(r["inputs"][0]) < 0))}
+        rep.violation(sig, {"event": {k: v for k, v in r.items() if k != "res"}})
+    rep.samples += [{k: v for k, v in raw[i].items() if k != "res"} for i in (0, len(raw) // 2, len(raw) - 1)]
+    rep.assumptions += ["the double-precision FFT is not modelled: vector inputs are checked exactly only where the preimage is a monomial, otherwise through component consistency and decode(encode(v)) = v",
+                        "decode is the library's own (its deviation allowance is max|v| 2^-36 + 4N/scale)", "the composed coefficient integers are hints computed in python and verified residue by residue by TLC"]
+    log("[C12] %d events (%d refused), %d rejected" % (len(raw), rep.cov["refused"], len(bad)))
+
+
+REGISTRY.update({"C12": (check_c12, "model_checking")})
